@@ -802,6 +802,7 @@ int cli::run(size_t argc, const char** argv)
     }
     else
     { // Default Mode
+        bool run_failed = false; // an automated run that ended with an error must not look like a success to the caller
         do
         {
             if (!m_automated)
@@ -887,6 +888,7 @@ int cli::run(size_t argc, const char** argv)
             switch (result)
             {
                 case sqf::runtime::runtime::result::invalid:
+                run_failed = true;
                 if (verbose())
                 {
                     std::cout << "Invalid result. Please raise a bug at github concerning this." << std::endl;
@@ -901,9 +903,11 @@ int cli::run(size_t argc, const char** argv)
                 case sqf::runtime::runtime::result::ok:
                 break;
                 case sqf::runtime::runtime::result::action_error:
+                run_failed = true;
                 std::cout << "Performing the action failed." << std::endl;
                 break;
                 case sqf::runtime::runtime::result::runtime_error:
+                run_failed = true;
                 if (verbose())
                 {
                     std::cout << "Runtime Error occured." << std::endl;
@@ -913,6 +917,10 @@ int cli::run(size_t argc, const char** argv)
                 break;
             }
         } while (!m_automated && !m_runtime.is_exit_requested());
+        if (m_automated && run_failed && !m_runtime.exit_code().has_value())
+        {
+            return EXIT_FAILURE;
+        }
     }
     auto exitcode = m_runtime.exit_code();
     if (exitcode.has_value())
